@@ -41,6 +41,10 @@ def Tl.ctl (t : Tl) : Ctl → Tl
   | .resume => { t with paused := false }
   | .setScale k => if 0 < k then { t with scale := k } else t
 
+/-- `time.load_state_dict(...)`: the system clock continues from a saved value - possibly an *earlier* one than it
+shows now (a checkpoint older than the end of the previous run, loaded in the same process). -/
+def Tl.load (t : Tl) (v : Rat) : Tl := { t with sys := v }
+
 /-- One thing that happens in the environment. -/
 inductive Ev
   | wait (dt : Rat)
